@@ -265,6 +265,7 @@ func TestVerifC15Block(t *testing.T) {
 		c.Bubble(func() {
 			capacity := c.Range(1, 3)
 			q := newRpcQueue(capacity)
+			defer c15WatchPushes(c, q)()
 			var waiters []*c15Waiter
 			pushedOK := map[int]bool{}
 			popped := map[int]int{}
@@ -604,6 +605,7 @@ func TestVerifC15Stress(t *testing.T) {
 	vRun(t, "C15.stress", vCount(1500, 60000), func(c *vCase) {
 		capacity := c.Range(1, 3)
 		q := newRpcQueue(capacity)
+		defer c15WatchPushes(c, q)()
 		var clock atomic.Int64
 		var mu sync.Mutex
 		var ops []porcupine.Operation
@@ -904,4 +906,24 @@ func c15Parked() (ids, kinds []string, others int) {
 	sort.Strings(ids)
 	sort.Strings(kinds)
 	return
+}
+
+
+// c15WatchPushes asserts, at the moment of acceptance and under the queue's own mutex (push-outcome hook, build tag
+// verif), that no push is accepted by a queue that is already closed. A blocked push that resumes after Close is
+// indistinguishable at the API boundary from one that got in just before it; at the hook it is not.
+func c15WatchPushes(c *vCase, q *rpcQueue) (finish func()) {
+	var bad atomic.Int32
+	f := func(pq *rpcQueue, rpc *RPC, urgent bool, err error) {
+		if pq == q && err == nil && pq.closed {
+			bad.Add(1)
+		}
+	}
+	verifPushedHook.Store(&f)
+	return func() {
+		verifPushedHook.Store(nil)
+		if n := bad.Load(); n > 0 {
+			c.Violatef(map[string]string{"kind": "accepted_on_closed_queue"}, "%d push(es) were accepted (appended, nil returned) while the queue was already closed", n)
+		}
+	}
 }
